@@ -195,6 +195,14 @@ Fixpoint wrun (rel : bool) (w : world) (ops : list wop) : res (world * list out)
     let '(w2, xs) := r2 in Ok (w2, x :: xs)
   end.
 
+(* histories with RECOVERABLE aborts (RLBOX_USE_EXCEPTIONS): a refused operation leaves the world as
+   it was and the history goes on (what the correspondence run's `rx` operation does) *)
+Fixpoint wrun_rec (rel : bool) (w : world) (ops : list wop) : world :=
+  match ops with
+  | [] => w
+  | o :: tl => match wstep rel w o with Ok (w1, _) => wrun_rec rel w1 tl | _ => wrun_rec rel w tl end
+  end.
+
 Definition world_init (nsb nslots nown : nat) : world :=
   {| sbs := repeat (sbx_init nslots) nsb; slist := []; owns := repeat None nown |}.
 
